@@ -3,7 +3,7 @@ SRC = ['repo:src/Signal.cpp', 'repo:src/Thread.cpp', 'repo:src/Mutex.cpp', 'repo
 UNITS = [dict(
     name='future', harness='harness/c10_future.cpp', sources=SRC, native=False,
     defines={'quick': {'VF_CJOBS': 1}, 'thorough': {'VF_CJOBS': 2}},
-    entries=['queue', 'future_one', 'future_two', 'backpressure'],
+    entries=['queue', 'future_one', 'future_heap', 'future_two', 'backpressure'],
     opts={'quick': {'unwind': 64, 'max_instr': 400000, 'preempt': 1, 'ignore_unfinished_threads': True, 'check_leaks': False}, 'thorough': {'unwind': 64, 'max_instr': 400000, 'preempt': 2, 'ignore_unfinished_threads': True, 'check_leaks': False}},
     split={'quick': 14, 'thorough': 16},
     budget={'quick': 285, 'thorough': 3300},
